@@ -19,11 +19,14 @@ import c01_common as cc
 META = {
     "id": "C01",
     "level": "proof",
-    "technique": "Coq-defined distribution semantics (well-founded model per total choice, exact Q) with theorems about it "
-                 "(WMC/AD encoding, conditional probability), extracted as oracle; differential correspondence of the real pipeline",
+    "technique": "Coq-defined distribution semantics (exact Q, extracted as oracle) + end-to-end Coq theorem C01_pipeline_correct for the ground pipeline "
+                 "(cycle breaking -> translated Clark completion + AD clauses -> WMC / checked d-DNNF -> conditional ratio = possible-world probability); "
+                 "differential correspondence of the real engine and pipeline against the oracle",
     "design_ref": "DESIGN.md §5 C01",
-    "text": "Sem.prob is the specification; C01 theorems relate it to the weighted-model-count formulation the pipeline implements; "
-            "the real engine + d-DNNF pipeline is tied to it by differential testing on generated programs.",
+    "text": "Sem.prob is the specification. C01pipe/Props.v proves, with no axioms and for every well-formed stratified ground program, query and evidence, that the staged pipeline model "
+            "(C09 models of _break_cycles incl. memo and of the translated clarks_completion, AD exactly-one clauses with the complement weight, WMC over all CNF variables or any circuit accepted "
+            "by the verified d-DNNF checker, ratio / Inconsistent) equals the possible-world probability under the stratified model of the cyclic graph. "
+            "The grounding engine (program -> LogicFormula), the hand model of cycles.py, and dsharp are tied by differential testing on generated programs against the extracted oracle.",
     "note": "Trusted: Coq kernel, extraction (ExtrOcamlBasic) + OCaml driver, program generator/encoder; the grounding engine is tied by correspondence only.",
 }
 
@@ -75,6 +78,15 @@ def run(ctx):
     ]
     cc.IMPL_CPU_TIMEOUT = ctx.n(10, 20)   # CPU seconds per evaluation (a non-terminating grounding costs exactly this)
     ctx.prove("C01/Props.v")
+    # end-to-end theorem for the ground part of the pipeline (break_cycles -> Clark completion + AD clauses ->
+    # WMC / checked d-DNNF -> ratio) = possible-world probability: coq/theories/C01pipe (notes/C01pipe.md).
+    # Its cone contains the Clark model translated from /repo/problog/cnf_formula.py by C09's translator.
+    try:
+        import importlib
+        importlib.import_module("props.C09").generate(ctx)
+    except Exception as e:  # translator failure: recorded, the judge below still runs
+        ctx.broken.append("translator:C09 Clark model needed by C01pipe: %r" % (e,))
+    ctx.prove("C01pipe/Props.v", timeout=1500)
     try:
         so.build(ctx)
     except Exception as e:
